@@ -70,7 +70,7 @@ ASSUMPTIONS = ['`error` events are judged in one respect only: none may name a s
                'pollers are compared only on histories where every action ran to quiescence and no fault fired in any of the three executions (otherwise timing and the '
                'independently drawn faults legitimately change what is read / when a close deferred by unsent data completes)',
                'client clause: only the pairing of connected/disconnected is judged']
-PROBES = ['late-write', 'late-close', 'answer-close-while-peer-talks', 'write-then-peer-gone', 'readable-and-writable-round-ends-connection', 'abort', 'half-close', 'stalled-send-buffer-full', 'close-deferred-by-buffer', 'peer-close-while-writing', 'unix-server',
+PROBES = ['late-write', 'late-close', 'client-close-while-writing-peer-gone', 'answer-close-while-peer-talks', 'write-then-peer-gone', 'readable-and-writable-round-ends-connection', 'abort', 'half-close', 'stalled-send-buffer-full', 'close-deferred-by-buffer', 'peer-close-while-writing', 'unix-server',
           'client-mode', 'client-reconnect', 'pollers-compared', 'echo-write', 'multi-conn', 'unsettled-action', 'cfg:Select', 'cfg:Poll', 'cfg:EPoll',
           'fault:short_read', 'fault:spurious_eagain_read', 'fault:recv_reset', 'fault:short_write', 'fault:transient_send_error', 'fault:fatal_send_error',
           'fault:accept_error', 'fault:poll_eintr', 'fault:connect_delay']
@@ -682,8 +682,8 @@ def gen_client_plan(ch, cfg):
     plan['rate'] = ch.choice([4, 8, 16], 'fault-rate')
     acts = []
     for _ in range(ch.randint(2, cfg['max_actions'], 'nactions')):
-        k = ch.weighted([3, 5, 3, 3, 1, 1, 2, 1, 1], 'action')
-        kind = ['connect', 'psend', 'cwrite', 'pclose', 'pabort', 'phalf', 'cclose', 'toggle_read', 'cbig'][k]
+        k = ch.weighted([3, 5, 3, 3, 1, 1, 3, 1, 1, 2], 'action')
+        kind = ['connect', 'psend', 'cwrite', 'pclose', 'pabort', 'phalf', 'cclose', 'toggle_read', 'cbig', 'cclose_writing_pgone'][k]
         arg = ch.choice(SIZES, 'nbytes') if kind in ('psend', 'cwrite') else cfg['big'] if kind == 'cbig' else None
         acts.append((kind, arg, ch.weighted([10, 1, 1], 'settle-mode')))
     plan['acts'] = acts
@@ -691,6 +691,7 @@ def gen_client_plan(ch, cfg):
 
 
 def run_client(ctx, plan, P, skip_uwrite):
+    cfg_big = ctx.cfg['big']
     S = Sub(ctx, P, plan['kinds'], plan['rate'])
     m, tr, fail = S.m, S.tr, S.fail
     ctx.stat('client-mode')
@@ -798,6 +799,17 @@ def run_client(ctx, plan, P, skip_uwrite):
         elif kind == 'cclose':
             tr('client: fire close()%s' % ('' if st['nconn'] > st['ndisc'] else ' while not connected'))
             m.fire(NE.close(), cli.channel)
+        elif kind == 'cclose_writing_pgone':
+            # mirror image of "close while the server is writing": the client has more queued than the socket takes, asks for close (deferred), the peer goes away
+            if live and st['nconn'] > st['ndisc'] and st['settled'] and not getattr(p, 'half', False):
+                ctx.stat('client-close-while-writing-peer-gone')
+                tr('client: fire write(%d bytes), write(300 bytes), close(); one loop iteration; then the peer closes without reading' % cfg_big)
+                m.fire(NE.write(payload(9, st['woff'], cfg_big)), cli.channel)
+                m.fire(NE.write(payload(9, st['woff'] + cfg_big, 300)), cli.channel)
+                st['woff'] += cfg_big + 300
+                m.fire(NE.close(), cli.channel)
+                S.partial(pump, 1)
+                p.close()
         elif kind in ('pclose', 'pabort'):
             if live:
                 if kind == 'pclose':
